@@ -377,6 +377,9 @@ func genRun(t *rapid.T) runCase {
 		Procs:   h.OneOf(t, "procs", 1, 2, 4, 16),
 		Data:    h.Bytes(t, "data", 0, 40),
 	}
+	if h.Pick(t, "longdata", 5, 1) == 1 { // messages far longer than a digest or a Curl block: the target scales with the length
+		c.Data = h.BytesN(t, "ldata", h.OneOf(t, "ldlen", 100, 300, 1000, 2000, 5000))
+	}
 	c.Target = []string{"every-lane", "easy", "moderate", "unattainable"}[h.Pick(t, "target", 3, 3, 2, 3)]
 	if c.Target == "unattainable" {
 		c.Cancel = []string{"before", "delay", "race", "deadline"}[h.Pick(t, "cancel", 1, 3, 2, 2)]
@@ -397,6 +400,6 @@ func TestRuns(t *testing.T) {
 		Prop: "C13", Name: subName, N: 320,
 		Gen: genRun, Check: checkRun,
 		Require: []string{"v1/every-lane/race", "v2/every-lane/race", "v1/unattainable/delay", "v2/unattainable/delay", "v1/moderate/race", "v2/moderate/race", "v1/easy/before", "v2/easy/never"},
-		Rule:    "configurations {v1, v2} x workers {1,2,3,4,8,16,32,64} x GOMAXPROCS {1,2,4,16} x target {every lane qualifies, easy, moderate (~3^8 hashes), unattainable} x cancellation {never, before the call, after 0..5 ms, racing with the find after 0..3000 scheduler yields, by a context deadline} x (v1) digest function {default, SHA-1, MD5, SHA-224, RIPEMD-160, SHA-256, BLAKE2s}; (err == nil and Score >= target) or (cancellation error and ctx cancelled); returns within 45 s of cancellation (expected ms); no goroutine with a pkg/pow frame alive 5 s after return; binary built with -race (any report is a violation); non-trivial = >= 2 workers and (cancellation used or every-lane target); distinct by configuration",
+		Rule:    "configurations {v1, v2} x workers {1,2,3,4,8,16,32,64} x GOMAXPROCS {1,2,4,16} x data {0..40 bytes, one in six 100..5000 bytes} x target {every lane qualifies, easy, moderate (~3^8 hashes), unattainable} x cancellation {never, before the call, after 0..5 ms, racing with the find after 0..3000 scheduler yields, by a context deadline} x (v1) digest function {default, SHA-1, MD5, SHA-224, RIPEMD-160, SHA-256, BLAKE2s}; (err == nil and Score >= target) or (cancellation error and ctx cancelled); returns within 45 s of cancellation (expected ms); no goroutine with a pkg/pow frame alive 5 s after return; binary built with -race (any report is a violation); non-trivial = >= 2 workers and (cancellation used or every-lane target); distinct by configuration",
 	})
 }
